@@ -185,8 +185,9 @@ class PeeringScenario(Scenario):
             elif k == 'operator-exit' and p.get('how') == 'raised':
                 out.append(self.viol(env, 'operator-failed', f"t={t}: operator {p['op']} raised {p.get('error')}", clause='safety'))
         for t, run, gh, changed, killed in checkpoints:
-            # dead records (of killed operators, foreign ones) take a lifetime to expire; nothing else needs waiting for
-            stable_after = (max(LIFETIME, int(self.params.get('lifetime', LIFETIME))) if killed or gh else LIFETIME) + 12.0
+            # the records of killed operators take their configured lifetime to expire (foreign records: their own stated one, or the
+            # documented default of 60 - their end is known as `until`); nothing else needs waiting for
+            stable_after = (max(LIFETIME, int(self.params.get('lifetime', LIFETIME))) if killed else LIFETIME) + 12.0
             if not exact and t - changed < stable_after + 10:
                 continue
             # who is expected to be active
